@@ -1,6 +1,7 @@
 \* quick: 9 kinds x containers of <= 2 members x position x trailing ws x filter x header separator x /Length storage
 CONSTANTS
   Kinds <- MC_KindsQ
+  BigN = 60
   MaxN = 2
   Filters = {"none", "flate"}
   HdrSeps = {"sp", "nl"}
